@@ -1,7 +1,8 @@
 (* Entry points of the extracted table-construction model (commands 220..229). *)
 From Coq Require Import NArith List Bool.
 From PV Require Import Base.Sx Spec.Cfg Model.Table Model.First Model.Closure Model.Automaton
-  Model.Resolve Model.TableBuild Extract.Codec.
+  Model.Resolve Model.TableBuild Model.TableSpec Validators.TableComplete Validators.TableStruct
+  Extract.Codec.
 From PV Require Extract.RunC06 Extract.RunC19.
 Import ListNotations.
 Local Open Scope N_scope.
@@ -91,11 +92,27 @@ Definition run_tab_223 (s : sx) : sx :=
                             (tc_max_states c) (tc_sfuel c) (tc_pfuel c))
   end.
 
+(* 224: is the input in the class of the end-to-end theorems, and do the validators accept the
+        model's table with the model's own annotation (C05_model_table_complete /
+        C05_model_table_struct say: always, when plain_ok):
+        (plain_ok ()) | (plain_ok (table_complete table_struct)) *)
+Definition run_tab_224 (s : sx) : sx :=
+  let c := tconf_of_sx s in
+  L [ofB (plain_ok c);
+     match create_table c with
+     | BOk b =>
+         L [ofB (table_complete (cfg_std c) (tb_table b) (ann_of_built c b)
+                                (fst_std c (tb_first b)) (nul_std c (tb_first b)) (tc_stop c));
+            ofB (table_struct (cfg_std c) (tb_table b) (start_nt c))]
+     | _ => L []
+     end].
+
 Definition run_tab (cmd : N) (s : sx) : sx :=
   match cmd with
   | 220 => run_tab_220 s
   | 221 => run_tab_221 s
   | 222 => run_tab_222 s
   | 223 => run_tab_223 s
+  | 224 => run_tab_224 s
   | _ => L [A 999999]
   end.
